@@ -61,7 +61,7 @@ def case_strategy(draw: Any) -> dict[str, Any]:
     cfg = CFG if draw(st.integers(0, 3)) else CFG_STR
     prog = draw(program_strategy(cfg))
     return {"kind": "prog", "prog": prog, "layout": draw(st.integers(0, 30)),
-            "data": [draw(data_strategy()), draw(data_strategy())]}
+            "data": [draw(data_strategy(allow_empty=True)), draw(data_strategy(allow_empty=True))]}
 
 
 class C12(Prop):
